@@ -36,6 +36,8 @@ def curated():
                             op("DELETE", 2), op("CHECK"), op("REOPEN", 0, 3), op("CHECK"), op("DELETE", 1), op("DELTAGREF_VG", 0, 1), op("CHECK"), op("REOPEN", 0, 1), op("CHECK")]))
     S.append(("reattach-edit", [op("CREATE", 0), op("SETNAME", 0, 3), op("ADDTAGREF", 0, 700, 1), op("DETACH", 0), op("ATTACH", 0), op("ADDTAGREF", 0, 700, 2), op("SETCLASS", 0, 9),
                                 op("CHECK"), op("DETACH", 0), op("ATTACH", 0), op("DELTAGREF", 0, 700, 1), op("CHECK"), op("REOPEN", 0, 1), op("CHECK")]))
+    S.append(("second-handle", [op("CREATE", 0), op("SETNAME", 0, 4), op("ADDTAGREF", 0, 700, 1), op("DETACH", 0), op("ATTACH", 0), op("SETNAME", 0, 7), op("ADDTAGREF", 0, 700, 2),
+                                op("ATTACH2", 0), op("CHECK"), op("REOPEN", 0, 1), op("CHECK")]))
     return S
 
 def rand(rng):
